@@ -51,7 +51,7 @@ def main():
         res["demo_exit_clean"] = clean.returncode
         res["demo_exit_changed"] = changed.returncode
         res["demo_output_changed"] = (changed.stdout + changed.stderr)[-600:]
-        res["confirmed"] = ("passed" in res["test_suite_with_change"] and "failed" not in res["test_suite_with_change"]
+        res["confirmed"] = ("passed" in res["test_suite_with_change"] and not re.search(r"\d+ (failed|error)", res["test_suite_with_change"])
                             and clean.returncode == 0 and changed.returncode != 0)
     finally:
         sh("git -C /repo worktree remove --force %s" % wt)
